@@ -23,8 +23,9 @@ module N :
 
   val ltb : coq_N -> coq_N -> bool
 
-  val size_nat : coq_N -> nat
   val log2 : coq_N -> coq_N
+
+  val size_nat : coq_N -> nat
 
   val pos_div_eucl : positive -> coq_N -> coq_N * coq_N
 
